@@ -251,6 +251,8 @@ fn main() {
     let mut inp = String::new();
     let mut outp = String::new();
     let mut shards = 1usize;
+    let mut progress: Option<String> = None;
+    let mut skip: std::collections::HashSet<usize> = Default::default();
     let mut twice = false;
     let mut vseed = 1u64;
     let mut i = 1;
@@ -270,6 +272,14 @@ fn main() {
             }
             "--shards" => {
                 shards = args[i + 1].parse().unwrap();
+                i += 1
+            }
+            "--progress" => {
+                progress = Some(args[i + 1].clone());
+                i += 1
+            }
+            "--skip" => {
+                skip = args[i + 1].split(',').filter(|x| !x.is_empty()).map(|x| x.parse().unwrap()).collect();
                 i += 1
             }
             "--twice" => twice = true,
@@ -298,6 +308,12 @@ fn main() {
         let line = line.unwrap();
         if line.trim().is_empty() {
             continue;
+        }
+        if skip.contains(&(lineno + 1)) {
+            continue;
+        }
+        if let Some(pf) = &progress {
+            std::fs::write(pf, format!("{}", lineno + 1)).ok();
         }
         let h: Value = serde_json::from_str(&line).expect("hist json");
         let p = parse(&h, lineno, vseed, &mut cache);
